@@ -21,8 +21,9 @@ structure Oracle where
   newDoc : List String → Option String → Option String
   /-- `to_annotation(ir["params"][name].get("typ"))` -/
   paramTyp : List String → String → Option String
-  /-- `ir["returns"]["return_type"]["typ"]` when present -/
-  returnTyp : List String → Option String
+  /-- `to_annotation(ir["returns"]["return_type"]["typ"])` when the IR has a typed return (`some none`: the type is
+      `None`, which `to_annotation` maps to *no* annotation) -/
+  returnTyp : List String → Option (Option String)
   /-- `_get_ass_typ` on an `AnnAssign` (target, annotation) -/
   annTyp : List String → String → String → String
   /-- `_get_ass_typ` on an `Assign` -/
@@ -45,7 +46,7 @@ def rewriteArgs (o : Oracle) (typeAnnotations : Bool) (path : List String) (a : 
   else { a with args := a.args.map (fun x => { x with ann := none }) }
 
 def rewriteReturns (o : Oracle) (typeAnnotations : Bool) (path : List String) (r : Option String) : Option String :=
-  if typeAnnotations then (match o.returnTyp path with | some t => some t | none => r) else none
+  if typeAnnotations then (match o.returnTyp path with | some t => t | none => r) else none
 
 mutual
 /-- `DocTrans.visit` on one statement -/
@@ -65,7 +66,8 @@ def docTransStmt (o : Oracle) (ta : Bool) (path : List String) : Stmt → Except
     pure (.cls n bs ks b2 d)
   | .ann t a v =>
     if ta then pure (.ann t (o.annTyp path t a) v)
-    else pure (.assign [t] (v.getD "None"))
+    -- `value=set_value(none_types[-1]) if node.value is None`: the *string* "```(None)```"
+    else pure (.assign [t] (v.getD "'```(None)```'"))
   | .assign ts v =>
     match (if ta then o.assignTyp path ts else none) with
     | some ty =>
